@@ -72,6 +72,17 @@ def case_insensitive_strxfrm(s: str) -> str:
     return s.casefold()
 
 
+ASCII_LOWER_CASE = {cp: cp + 32 for cp in range(65, 91)}
+
+
+def html_ascii_case_insensitive_strcoll(s1: str, s2: str) -> int:
+    return unicode_codepoint_strcoll(s1.translate(ASCII_LOWER_CASE), s2.translate(ASCII_LOWER_CASE))
+
+
+def html_ascii_case_insensitive_strxfrm(s: str) -> str:
+    return s.translate(ASCII_LOWER_CASE)
+
+
 class CollationManager(context_class_base):
     """
     Context Manager for collations. Provide helper operators as methods.
@@ -103,8 +114,8 @@ class CollationManager(context_class_base):
             self.strxfrm = unicode_codepoint_strxfrm
         elif collation == HTML_ASCII_CASE_INSENSITIVE_COLLATION:
             self.lc_collate = None
-            self.strcoll = case_insensitive_strcoll
-            self.strxfrm = case_insensitive_strxfrm
+            self.strcoll = html_ascii_case_insensitive_strcoll
+            self.strxfrm = html_ascii_case_insensitive_strxfrm
         elif collation == XQUERY_TEST_SUITE_CASEBLIND_COLLATION:
             self.lc_collate = None
             self.strcoll = case_insensitive_strcoll
